@@ -8,7 +8,10 @@ import Modbus.Spec.Registers
 namespace Modbus.Driver
 open Modbus Modbus.Model
 
-def tokAcc (s : String) : Option (Acc × UInt16) :=
+def tokAcc (s0 : String) : Option (Acc × UInt16) :=
+  -- `F<accessor>`: the same read made through `Field.ExtractFrom` of the request builder (a field of that type, byte
+  -- order, length ... on the same Registers): same result, and no trace left on the Registers for later reads
+  let s := if s0.startsWith "F" then (s0.drop 1).toString else s0
   match s.splitOn "@" with
   | [name, rest] =>
     let args := rest.splitOn "/"
